@@ -711,7 +711,10 @@ func (sys *System) GetCachedLocations(ctx *Context) []string {
 }
 
 func (sys *System) ensureStorage(ctx *Context) (Storage, error) {
-	// Assumes we have the sys lock
+	// Check and create under the System's lock: concurrent first
+	// requests must end up sharing one Storage.
+	sys.Lock()
+	defer sys.Unlock()
 	if sys.storage != nil {
 		return sys.storage, nil
 	}
